@@ -1482,6 +1482,50 @@ theorem greedyRowMax_near_max (A : Nat) (hA : 0 < A) (q : Nat → Rat) (B : Rat)
   rw [abs_le] at h1
   linarith [h1.1]
 
+theorem countTo_mono (p : Nat → Bool) (n : Nat) : countTo n p ≤ countTo (n+1) p := by
+  simp only [countTo]; omega
+
+/-- the as-found scan never counts more ties than there are entries equal to its final maximum -/
+theorem greedyScan_count_le (q : Nat → Rat) : ∀ n,
+    (greedyScan q n).2 ≤ countTo (n+1) (fun i => checkEqualGeneral (q i) (greedyScan q n).1) := by
+  intro n
+  induction n with
+  | zero =>
+    simp only [greedyScan, countTo, checkEqualGeneral_self]
+    simp
+  | succ n ih =>
+    simp only [greedyScan]
+    split
+    · rename_i h
+      -- tie: the maximum is unchanged, entry n+1 is one more tie
+      simp only [countTo] at ih ⊢
+      simp only [h, if_true]
+      omega
+    · split
+      · -- new strict maximum: count 1, and the new maximum equals itself
+        simp only [countTo, checkEqualGeneral_self]
+        simp
+      · rename_i h _
+        simp only [countTo] at ih ⊢
+        simp only [h]
+        simp only [Bool.false_eq_true, if_false, Nat.add_zero]
+        exact ih
+
+/-- **greedyRowScan_sum_ge_one.**  The as-found `getPolicy` row can only sum to MORE than one (it equals #{a | q a ≈ max}/count with
+    count ≤ that number): a row summing to less than one is never the known tie-chain defect. -/
+theorem greedyRowScan_sum_ge_one (A : Nat) (hA : 0 < A) (q : Nat → Rat) : 1 ≤ sumTo A (greedyRowScan A q) := by
+  obtain ⟨c1, _⟩ := greedyScan_count q (A - 1)
+  have hle := greedyScan_count_le q (A - 1)
+  have hA1 : A - 1 + 1 = A := by omega
+  rw [hA1] at hle
+  have e : greedyRowScan A q = fun a => if (fun i => checkEqualGeneral (q i) (greedyScan q (A - 1)).1) a
+      then 1 / (((greedyScan q (A - 1)).2 : Nat) : Rat) else 0 := by
+    funext a; simp only [greedyRowScan]
+  rw [e, sumTo_indicator_count]
+  have hc : (0 : Rat) < (((greedyScan q (A - 1)).2 : Nat) : Rat) := by exact_mod_cast c1
+  rw [mul_one_div, le_div_iff₀ hc, one_mul]
+  exact_mod_cast hle
+
 /-- whichever shape the source has: entries of a greedy row are 0 or 1/c for one count c ∈ [1, A] -/
 theorem greedyRow_form (A : Nat) (hA : 0 < A) (q : Nat → Rat) :
     ∃ c : Nat, 1 ≤ c ∧ c ≤ A ∧ ∀ a, greedyRow A q a = 0 ∨ greedyRow A q a = 1 / (c : Rat) := by
